@@ -228,6 +228,9 @@ class _MCQuad(torch.autograd.Function):
         # (neither draws samples here: xsamples is set)
         bck_config = dict(ctx.bck_config)
         bck_method = bck_config.pop("method", ctx.method)
+        if isinstance(bck_method, str):
+            # an unknown name is rejected here as it is in the forward call
+            get_method("mcquad", {"mh": mh, "_dummy1d": dummy1d, "mhcustom": mhcustom}, bck_method)
         with log_pfcn.useobjparams(pobjparams):
             aug_epfs = _mcquad(aug_function, log_pfcn,
                                x0=xsamples[0],  # unused because xsamples is set
